@@ -279,6 +279,31 @@ def renderableKids : List Tree → Bool
   | k :: ks => renderable k && renderableKids ks
 end
 
+mutual
+/-- every attribute table in the tree satisfies the hash-table invariant (true of every
+    tree built through the API, `Lemmas/StanzaOps.lean`) -/
+def TabsWF : Tree → Prop
+  | .tag _ attrs ks => (∀ tab, attrs = some tab → HashTab.WF tab) ∧ TabsWFKids ks
+  | .text _ ks => TabsWFKids ks
+  | .unknown ks => TabsWFKids ks
+def TabsWFKids : List Tree → Prop
+  | [] => True
+  | k :: ks => TabsWF k ∧ TabsWFKids ks
+end
+
+mutual
+/-- no string of the tree contains a NUL — true of everything that came in through a `char *` -/
+def NulFree : Tree → Prop
+  | .tag name attrs ks =>
+    (0 : UInt8) ∉ name ∧ (∀ tab, attrs = some tab → ∀ e ∈ tab.toList, (0 : UInt8) ∉ e.1 ∧ (0 : UInt8) ∉ e.2) ∧
+      NulFreeKids ks
+  | .text d _ => (0 : UInt8) ∉ d
+  | .unknown _ => True
+def NulFreeKids : List Tree → Prop
+  | [] => True
+  | k :: ks => NulFree k ∧ NulFreeKids ks
+end
+
 /-! ### copy, reply, reply_error, error_new -/
 
 /-- `_stanza_copy_attributes` into a stanza without table -/
@@ -364,6 +389,46 @@ def errorNew (type : Int) (text : Option Bytes) : Tree :=
     | some tx => [mkTag sText [(xmlnsKey, nsStreams)] [.text tx []]]
     | none => []
   .tag (bytesOfNats Gen.Stanza.streamErrorElement) none (cond :: more)
+
+/-! ### variables holding trees (the state of the driver engine `stz`) -/
+
+abbrev Store := List (Option Tree)
+
+/-- attribute table a child of this node sees as `stanza->parent->attributes` -/
+def attrsOf : Tree → Option HashTab
+  | .tag _ a _ => a
+  | _ => none
+
+/-- follow a path of child indices; returns the node and the rendering context of that node -/
+def walk : Tree → List Nat → Option (Option HashTab) → Option (Tree × Option (Option HashTab))
+  | t, [], par => some (t, par)
+  | t, i :: rest, _ =>
+    match (kids t)[i]? with
+    | some k => walk k rest (some (attrsOf t))
+    | none => none
+
+/-- apply `f` to the node at the path -/
+def modifyAt (f : Tree → Tree) : Tree → List Nat → Tree
+  | t, [] => f t
+  | t, i :: rest =>
+    match (kids t)[i]? with
+    | some k => setKids t ((kids t).set i (modifyAt f k rest))
+    | none => t
+
+/-- a mutator applied at `path` below variable `v` -/
+def Store.mutate (s : Store) (v : Nat) (path : List Nat) (f : Tree → Tree) : Store :=
+  match s.getD v none with
+  | some t => s.set v (some (modifyAt f t path))
+  | none => s
+
+/-- `vw := xmpp_stanza_copy(node at path below vv)` -/
+def Store.copyTo (s : Store) (v : Nat) (path : List Nat) (w : Nat) : Store :=
+  match s.getD v none with
+  | some t =>
+    match walk t path none with
+    | some (n, _) => s.set w (copy n)
+    | none => s
+  | none => s
 
 end Stanza
 end Strophe
